@@ -5,7 +5,8 @@
 //    ORIGINAL text; what Verus cannot read (closure pipelines, the two `for` loops over a HashMap, std::env / std::io / std::time)
 //    is a rule-O1 stub.  `std::process::exit` is a stub returning `!` whose PRECONDITION is `code == 0`: the function verifies
 //    only if EVERY path ends in `exit(0)` or a normal return (main then ends with status 0), and every `unwrap` / index / slice
-//    of the skeleton is proved safe (Verus checks the preconditions of Option::unwrap, Result::unwrap, `args[i]`, `&args[1..]`).
+//    of the skeleton is proved safe (Verus checks the preconditions of Option::unwrap, Result::unwrap, `args[i]`, `&args[1..]`).  The function
+//    has NO precondition (since /repo e257841a a failing current_dir() is one more path to exit(0)).
 //  * `eprintln!`, `format!`, `serde_json::json!` are shadowed by unit-level macros that DROP their arguments and call a stub
 //    (what is printed is irrelevant for the property; the assumption "stderr is writable" is listed in unit.json).
 //  * the bodies of the two HashMap loops are statement regions (rule R1): each repository's `checkpoint::run` is called with the
@@ -15,6 +16,9 @@
 //    repository are dropped".
 //  * region ws_filter is the body of the `filter_map` closure of checkpoint::run: a path is kept only if it is inside the work
 //    tree, and is then named relative to it.
+//    Regions ws_decide / ws_return (since /repo f8dc9758): files were reported and none is inside the work tree => the flag is set
+//    and `run` returns Ok((0, 0, 0)) BEFORE the rest of run (a stub whose precondition is `flag not set`); an empty or absent
+//    list keeps meaning `no pathspec`.
 //  * AgentV1Preset::run is the representative of the preset interface: serde_json parsing is an uninterpreted Result.
 use vstd::prelude::*;
 macro_rules! eprintln { ($($t:tt)*) => { $crate::opq_eprint() } }
@@ -504,10 +508,9 @@ fn emit_no_repo_agent_metrics(agent_run_result: Option<&AgentRunResult>)
 //#end
 
 // ------------------------------------------------------------------ rule-O1 stubs of handle_checkpoint
-pub uninterp spec fn cwd_readable() -> bool;
-/// `std::env::current_dir().unwrap().to_string_lossy().to_string()`.  PRECONDITION: the current directory can be read - the
-/// `unwrap` PANICS otherwise (recorded deviation ckptcmd-3: the hook is started in a directory that has been removed)
-#[verifier::external_body] fn opq_cwd_text() -> String requires cwd_readable(), { unimplemented!() }
+/// `std::env::current_dir()`: may FAIL (the directory the hook was started in has been removed); uninterpreted.  Since /repo
+/// e257841a the failure is one more path that ends in exit(0) (before: `.unwrap()`, finding ckptcmd-3)
+#[verifier::external_body] fn opq_current_dir() -> Result<PathBuf, IoError> { unimplemented!() }
 /// `hook_input.as_ref().unwrap() == "stdin"`: the unwrap needs Some
 #[verifier::external_body] fn opq_opt_is(o: &Option<String>, lit: &str) -> (r: bool) requires *o is Some, ensures r == (o.unwrap()@ == lit@), { unimplemented!() }
 /// `hook_input.as_ref().unwrap().trim().is_empty()`
@@ -515,7 +518,12 @@ pub uninterp spec fn cwd_readable() -> bool;
 /// `!s.trim().is_empty()`
 #[verifier::external_body] fn opq_nonblank(s: &String) -> bool { unimplemented!() }
 pub struct Stdin { pub _opaque: () }
+#[derive(Debug)]
 pub struct IoError { pub _opaque: () }
+/// `PathBuf::to_string_lossy()` followed by `.to_string()`: the text of the path
+pub struct LossyText { pub p: Ghost<PathV> }
+impl PathBuf { #[verifier::external_body] pub fn to_string_lossy(&self) -> (r: LossyText) ensures r.p@ == pbv(*self), { unimplemented!() } }
+impl LossyText { #[verifier::external_body] pub fn to_string(&self) -> (r: String) ensures r@ == text_of(self.p@), { unimplemented!() } }
 #[verifier::external_body] fn opq_stdin() -> Stdin { unimplemented!() }
 impl Stdin {
     /// read_to_string: Err e.g. when the bytes are not UTF-8; uninterpreted
@@ -710,13 +718,20 @@ fn opq_each_repo_cross(repo_files: RepoFiles, base_result: &AgentRunResult, kind
 //@ }
 //#end
 
-//#item file=src/commands/git_ai_handlers.rs kind=fn name=handle_checkpoint opaque='[{"stmt_from": "let files_to_check = agent_run_result.as_ref().and_then(|r| {", "call": "let files_to_check = opq_files_to_check(&agent_run_result"}, {"stmt_from": "let absolute_files: Vec<String> = files .iter() .map(|f| {", "call": "let absolute_files: Vec<String> = opq_absolutise(files, &repository_working_dir"}, {"stmt_from": "for (repo_workdir, (repo, repo_file_paths)) in repo_files {", "call": "opq_each_repo_multi(repo_files, &agent_run_result, checkpoint_kind, show_working_log, reset, Ghost(views(absolute_files@)), Ghost(Some(repository_working_dir@)));"}, {"stmt_from": "let will_edit_filepaths = if let Some(separator_pos) = args.iter().position(|a| a == \"--\") {", "call": "let will_edit_filepaths = opq_human_pathspecs(args, &effective_working_dir)"}, {"stmt_from": "let external_files: Vec<String> = agent_run_result .as_ref() .and_then(|r| {", "call": "let external_files: Vec<String> = opq_external_files(&agent_run_result, &repo"}, {"stmt_from": "for (repo_workdir, (ext_repo, repo_file_paths)) in repo_files {", "call": "opq_each_repo_cross(repo_files, &base_result, checkpoint_kind, Ghost(views(external_files@)));"}, {"expr": "std::env::current_dir() .unwrap() .to_string_lossy() .to_string()", "call": "opq_cwd_text()"}, {"expr": "hook_input.as_ref().unwrap().trim().is_empty()", "call": "opq_opt_blank(&hook_input)"}, {"expr": "hook_input.as_ref().unwrap() == \"stdin\"", "call": "opq_opt_is(&hook_input, \"stdin\")"}, {"expr": "std::io::stdin()", "call": "opq_stdin()"}, {"expr": "!buffer.trim().is_empty()", "call": "opq_nonblank(&buffer)"}, {"expr": "!name.trim().is_empty()", "call": "opq_nonblank(&name)"}, {"expr": "agent_run.repo_working_dir.clone().unwrap()", "call": "opq_some_text(&agent_run.repo_working_dir)"}, {"expr": "!arg.starts_with(\"--\")", "call": "opq_not_flag(arg)"}, {"expr": "agent_run_result .as_ref() .and_then(|r| r.repo_working_dir.clone()) .unwrap_or(repository_working_dir.clone())", "call": "opq_workdir_or(&agent_run_result, &repository_working_dir)"}, {"expr": "agent_run_result .as_ref() .and_then(|r| r.repo_working_dir.clone()) .unwrap_or_else(|| repository_working_dir.clone())", "call": "opq_workdir_or(&agent_run_result, &repository_working_dir)"}, {"expr": "agent_run_result .as_ref() .map(|r| r.checkpoint_kind) .unwrap_or(CheckpointKind::Human)", "call": "opq_kind_of(&agent_run_result)"}, {"expr": "std::time::Instant::now()", "call": "opq_now()"}, {"expr": "repo .workdir() .map(|p| p.to_string_lossy().to_string()) .unwrap_or_else(|_| final_working_dir.clone())", "call": "opq_workdir_text_or(&repo, &final_working_dir)"}, {"expr": "will_edit_filepaths.unwrap_or_default()", "call": "opq_vec_or_default(will_edit_filepaths)"}, {"expr": "agent_run_result.as_ref().map(|r| r.agent_id.tool.clone())", "call": "opq_tool_of(&agent_run_result)"}, {"expr": "agent_run_result.as_ref().cloned()", "call": "opq_clone_arr(&agent_run_result)"}, {"expr": "std::process::exit", "call": "opq_exit"}]'
+//#item file=src/commands/git_ai_handlers.rs kind=fn name=handle_checkpoint opaque='[{"stmt_from": "let files_to_check = agent_run_result.as_ref().and_then(|r| {", "call": "let files_to_check = opq_files_to_check(&agent_run_result"}, {"stmt_from": "let absolute_files: Vec<String> = files .iter() .map(|f| {", "call": "let absolute_files: Vec<String> = opq_absolutise(files, &repository_working_dir"}, {"stmt_from": "for (repo_workdir, (repo, repo_file_paths)) in repo_files {", "call": "opq_each_repo_multi(repo_files, &agent_run_result, checkpoint_kind, show_working_log, reset, Ghost(views(absolute_files@)), Ghost(Some(repository_working_dir@)));"}, {"stmt_from": "let will_edit_filepaths = if let Some(separator_pos) = args.iter().position(|a| a == \"--\") {", "call": "let will_edit_filepaths = opq_human_pathspecs(args, &effective_working_dir)"}, {"stmt_from": "let external_files: Vec<String> = agent_run_result .as_ref() .and_then(|r| {", "call": "let external_files: Vec<String> = opq_external_files(&agent_run_result, &repo"}, {"stmt_from": "for (repo_workdir, (ext_repo, repo_file_paths)) in repo_files {", "call": "opq_each_repo_cross(repo_files, &base_result, checkpoint_kind, Ghost(views(external_files@)));"}, {"expr": "std::env::current_dir()", "call": "opq_current_dir()"}, {"expr": "hook_input.as_ref().unwrap().trim().is_empty()", "call": "opq_opt_blank(&hook_input)"}, {"expr": "hook_input.as_ref().unwrap() == \"stdin\"", "call": "opq_opt_is(&hook_input, \"stdin\")"}, {"expr": "std::io::stdin()", "call": "opq_stdin()"}, {"expr": "!buffer.trim().is_empty()", "call": "opq_nonblank(&buffer)"}, {"expr": "!name.trim().is_empty()", "call": "opq_nonblank(&name)"}, {"expr": "agent_run.repo_working_dir.clone().unwrap()", "call": "opq_some_text(&agent_run.repo_working_dir)"}, {"expr": "!arg.starts_with(\"--\")", "call": "opq_not_flag(arg)"}, {"expr": "agent_run_result .as_ref() .and_then(|r| r.repo_working_dir.clone()) .unwrap_or(repository_working_dir.clone())", "call": "opq_workdir_or(&agent_run_result, &repository_working_dir)"}, {"expr": "agent_run_result .as_ref() .and_then(|r| r.repo_working_dir.clone()) .unwrap_or_else(|| repository_working_dir.clone())", "call": "opq_workdir_or(&agent_run_result, &repository_working_dir)"}, {"expr": "agent_run_result .as_ref() .map(|r| r.checkpoint_kind) .unwrap_or(CheckpointKind::Human)", "call": "opq_kind_of(&agent_run_result)"}, {"expr": "std::time::Instant::now()", "call": "opq_now()"}, {"expr": "repo .workdir() .map(|p| p.to_string_lossy().to_string()) .unwrap_or_else(|_| final_working_dir.clone())", "call": "opq_workdir_text_or(&repo, &final_working_dir)"}, {"expr": "will_edit_filepaths.unwrap_or_default()", "call": "opq_vec_or_default(will_edit_filepaths)"}, {"expr": "agent_run_result.as_ref().map(|r| r.agent_id.tool.clone())", "call": "opq_tool_of(&agent_run_result)"}, {"expr": "agent_run_result.as_ref().cloned()", "call": "opq_clone_arr(&agent_run_result)"}, {"expr": "std::process::exit", "call": "opq_exit"}]'
 fn handle_checkpoint(args: &[String])
-//@     // the ONE environment precondition: the current directory is readable (else the first statement panics: deviation ckptcmd-3)
-//@     requires cwd_readable(),
-//@     // every path that does not return ends in opq_exit, whose precondition is `code == 0`; returning = main ends with status 0
+//@     // NO precondition: for every argument vector, payload and environment, every path that does not return ends in opq_exit,
+//@     // whose precondition is `code == 0` (20 sites); returning = main ends with status 0
 {
-    let mut repository_working_dir = opq_cwd_text();
+    // An agent hook must never fail the agent: a missing current directory (e.g. removed while
+    // the agent was running) is reported and ignored like every other checkpoint error.
+    let mut repository_working_dir = match opq_current_dir() {
+        Ok(dir) => dir.to_string_lossy().to_string(),
+        Err(e) => {
+            eprintln!("Failed to determine the current directory: {}", e);
+            opq_exit(0);
+        }
+    };
 
     // Parse checkpoint-specific arguments
     let mut show_working_log = false;
@@ -1267,6 +1282,92 @@ pub open spec fn named_below(r: Seq<char>, wd: PathV, path: Seq<char>) -> bool {
                     } else {
                         None
                     }
+//@ }
+//#end
+
+// ------------------------------------------------------------------ checkpoint::run: what the filtered list means (/repo f8dc9758)
+/// how the rest of `run` is told about the reported paths: `pathspec` (Some = restrict git status and the tracked-file scan to these
+/// paths, None = NO restriction: the whole repository is scanned) and `all_outside`
+pub open spec fn decided(reported: Seq<String>, kept: Seq<String>, pathspec: Option<Seq<String>>, all_outside: bool) -> bool {
+    // C20 "ignoring files that belong to no repository" + C03: files were reported and NONE of them is inside the work tree:
+    // this is NOT "no pathspec"
+    (all_outside <==> (reported.len() > 0 && kept.len() == 0))
+    // some reported path is inside: exactly the kept ones are the pathspec
+    && (kept.len() > 0 ==> pathspec == Some(kept))
+    // an EMPTY reported list keeps meaning "no pathspec" (and so does an absent one: the closure is not entered)
+    && (kept.len() == 0 ==> pathspec is None)
+}
+//#item file=src/commands/checkpoint.rs kind=region name=ws_decide in=run from="if filtered.is_empty() {" to="$block_end" from_nth=0 to_nth=0
+//@ fn region_ws_decide(filtered: Vec<String>, p: &Vec<String>, mut all_paths_outside_repo: bool, mut filtered_pathspec: Option<Vec<String>>) -> (r_: (bool, bool, Option<Vec<String>>))
+//@     // typing: the initial values of the two captured variables of `run`
+//@     requires !all_paths_outside_repo, filtered_pathspec is None,
+//@     ensures decided(p@, filtered@, if r_.0 { Some(r_.2.unwrap()@) } else { None }, r_.1), r_.0 ==> r_.2 is Some,
+//@ {
+//@     let ghost kept = filtered@;
+//@     let pathspec =
+            if filtered.is_empty() {
+                // The agent named files, but none of them belongs to this repository
+                all_paths_outside_repo = !p.is_empty();
+                None
+            } else {
+                filtered_pathspec = Some(filtered);
+                filtered_pathspec.as_ref()
+            }
+//@     ;
+//@     let present = pathspec.is_some();
+//@     proof { if present { assert(*pathspec.unwrap() == filtered_pathspec.unwrap()); } }
+//@     (present, all_paths_outside_repo, filtered_pathspec)
+//@ }
+//#end
+#[verifier::external_body] pub fn debug_log(msg: &str) { unimplemented!() }
+/// the payload reports files and NONE of them is inside the work tree of `repo`
+pub open spec fn all_reported_outside(arr: Option<AgentRunResult>, repo: Repository) -> bool {
+    arr is Some && ck_files(arr.unwrap()) is Some && ck_files(arr.unwrap()).unwrap()@.len() > 0
+    && forall|i: int| 0 <= i < ck_files(arr.unwrap()).unwrap()@.len() ==> !in_wd(repo, resolved(workdir_of(repo), #[trigger] ck_files(arr.unwrap()).unwrap()@[i]@))
+}
+/// the payload reports no file (no list, or an empty one)
+pub open spec fn nothing_reported(arr: Option<AgentRunResult>) -> bool { arr is None || ck_files(arr.unwrap()) is None || ck_files(arr.unwrap()).unwrap()@.len() == 0 }
+/// O1 stub for the statement `let pathspec_filter = agent_run_result.as_ref().and_then(|result| { .. paths.and_then(|p| { ..
+/// p.iter().filter_map(|path| <region ws_filter>).collect(); <region ws_decide> }) })`: the closure pipeline around the two
+/// verified regions.  It carries what they PROVE: ws_filter keeps a path only if it is inside the work tree, ws_decide sets the flag
+/// iff paths were reported and none was kept.  The result (the pathspec) is used after the region.
+#[verifier::external_body]
+fn opq_pathspec_closure(arr: &Option<AgentRunResult>, repo: &Repository, filtered_pathspec: &mut Option<Vec<String>>, all_paths_outside_repo: &mut bool) -> (r: bool)
+    requires !*old(all_paths_outside_repo), *old(filtered_pathspec) is None,
+    ensures
+        all_reported_outside(*arr, *repo) ==> *final(all_paths_outside_repo),
+        nothing_reported(*arr) ==> !*final(all_paths_outside_repo),
+{ unimplemented!() }
+/// everything `run` does after the filter: get_all_tracked_files (git status, INITIAL, earlier checkpoints), reading the working
+/// log, saving blobs, computing and appending entries.  PRECONDITION: it is not reached when files were reported and all of them
+/// lie outside the work tree - the flag must have been ACTED on
+#[verifier::external_body] fn opq_rest_of_run(all_paths_outside_repo: bool) -> Result<(usize, usize, usize), GitAiError>
+    requires !all_paths_outside_repo,
+{ unimplemented!() }
+//#item file=src/commands/checkpoint.rs kind=region name=ws_return in=run from="let mut filtered_pathspec: Option<Vec<String>> = None;" to="let files_start = Instant::now();" from_nth=0 to_nth=0 opaque='[{"stmt_from": "let pathspec_filter = agent_run_result.as_ref().and_then(|result| {", "call": "let pathspec_filter = opq_pathspec_closure(&agent_run_result, repo, &mut filtered_pathspec, &mut all_paths_outside_repo"}, {"expr": "Instant::now()", "call": "opq_now()"}]'
+//@ fn region_ws_return(agent_run_result: Option<AgentRunResult>, repo: &Repository, pathspec_start: Instant) -> (r_: Result<(usize, usize, usize), GitAiError>)
+//@     ensures
+//@         // C20 / C03 (finding ckptcmd-1): files were reported, none inside the work tree: nothing recorded, nothing counted, no
+//@         // failure - and (precondition of opq_rest_of_run) nothing read or written
+//@         all_reported_outside(agent_run_result, *repo) ==> r_ == Ok::<(usize, usize, usize), GitAiError>((0usize, 0usize, 0usize)),
+//@ {
+    let mut filtered_pathspec: Option<Vec<String>> = None;
+    let mut all_paths_outside_repo = false;
+    let pathspec_filter = opq_pathspec_closure(&agent_run_result, repo, &mut filtered_pathspec, &mut all_paths_outside_repo);
+    debug_log(&format!(
+        "[BENCHMARK] Pathspec filtering took {:?}",
+        pathspec_start.elapsed()
+    ));
+
+    // Files outside the work tree are not ours to record; falling through without a pathspec
+    // would scan the whole repository and credit every changed file to this checkpoint's author.
+    if all_paths_outside_repo {
+        debug_log("All reported paths are outside the repository, nothing to checkpoint");
+        return Ok((0, 0, 0));
+    }
+
+    let files_start = opq_now();
+//@     opq_rest_of_run(all_paths_outside_repo)
 //@ }
 //#end
 
